@@ -81,6 +81,7 @@ class _Tunnel(Interface):
 
     __slots__ = (
         "_data_endpoint_addr",
+        "_disconnecting",
         "_heartbeat",
         "_reconnect_task",
         "_requested_address",
@@ -115,6 +116,7 @@ class _Tunnel(Interface):
         self.sequence_number = 0
         self.cemi_received_callback = cemi_received_callback
         self._data_endpoint_addr: tuple[str, int] | None = None
+        self._disconnecting = False
         self._heartbeat = ConnectionHeartbeat(
             name="Tunnel",
             send_connectionstate=self._connectionstate_request,
@@ -156,6 +158,7 @@ class _Tunnel(Interface):
 
         Raise CommunicationError when not successful.
         """
+        self._disconnecting = False
         self.xknx.connection_manager.connection_state_changed(
             XknxConnectionState.CONNECTING, self.connection_type
         )
@@ -190,6 +193,10 @@ class _Tunnel(Interface):
 
     def _tunnel_lost(self) -> None:
         """Prepare for reconnection or shutdown when the connection is lost. Callback."""
+        if self._disconnecting:
+            # `disconnect()` was called - a connection lost while it waits for the
+            # DisconnectResponse (or afterwards) must not be re-established
+            return
         if self.auto_reconnect:
             # _tunnel_lost might be called multiple times when the transport receives
             # multiple invalid frames - ensure only one reconnect task is started
@@ -257,6 +264,7 @@ class _Tunnel(Interface):
 
     async def disconnect(self) -> None:
         """Disconnect tunneling connection."""
+        self._disconnecting = True
         self._prepare_disconnect()
         self._stop_reconnect()
         try:
